@@ -38,6 +38,7 @@ Inductive step :=
 | StTrigger (id target : N)
 | StSorted (id target : N)
 | StDrop (id : N)
+| StSeed (r : crec)                 (* a crafted commit applied through Replay *)
 | StTxn (body : list stmt) (commitp : bool) (o : obs)
 | StRestore (o : obs)
 | StReplica (o : obs).
@@ -80,8 +81,14 @@ Fixpoint res_diffs (n : N) (a b : list res) : list (N * N) :=
   | _, _ => [(T_RES, n)]
   end.
 
-Definition canon_rec (r : crec) : crec := mkcrec 0 (rblk r) (rrow r) (rcols r).
-Global Instance crec_eq_dec : EqDecision crec. Proof. solve_decision. Defined.
+(* Commits and trigger logs are compared per offset: the property fixes the order of the
+   operations on one row, not the interleaving of different rows (a length-changing string
+   merge is re-appended at the end of its buffer, after the other rows' operations). *)
+Definition by_off {A} (key : A -> N) (l : list A) : gmap N (list A) :=
+  foldl (λ m x, <[key x := default [] (m !! key x) ++ [x]]> m) ∅ l.
+Definition canon_rec (r : crec) : N * gmap N (list op) * list (N * gmap N (list op)) :=
+  (rblk r, by_off ooff (rrow r), (λ p, (fst p, by_off ooff (snd p))) <$> rcols r).
+Definition tev_off (e : tevent) : N := match e with TStored i _ | TDeleted i => i end.
 Global Instance rowobs_eq_dec : EqDecision rowobs. Proof. solve_decision. Defined.
 
 Definition dump_map (s : coll) : gmap N rowobs := list_to_map (dump s).
@@ -104,7 +111,7 @@ Definition compare (cs : cstate) (s' : coll) (rs : list res) (o : obs) : cstate 
                    let seen := default 0%nat (cs_trig cs !! id) in
                    let news := drop seen (trig_log s' id) in
                    let want := default [] (snd <$> list_find (λ p, fst p = id) (o_trig o) ≫= λ p, Some (snd p)) in
-                   if decide (news = want) then [] else [(T_TRIG, id)]) (trig_ids s') in
+                   if decide (by_off tev_off news = by_off tev_off want) then [] else [(T_TRIG, id)]) (trig_ids s') in
   let news := canon_rec <$> drop (cs_emit cs) (emitted s') in
   let d_emit := if decide (news = canon_rec <$> o_emit o) then [] else [(T_EMIT, N.of_nat (length news))] in
   (mkcs s' rows' (keys s')
@@ -132,6 +139,7 @@ Definition do_step (cs : cstate) (st : step) : cstate * list (N * N) :=
   | StTrigger id tg => (keep (create_computed s id tg (XTrigger [])), [])
   | StSorted id tg => (keep (create_computed s id tg (XSorted ∅)), [])
   | StDrop id => (keep (drop_computed s id), [])
+  | StSeed r => (keep (replay s r), [])
   | StTxn body cp o =>
       let '(s', rs) := run_txn s body cp in compare cs s' rs o
   | StRestore o =>
